@@ -38,6 +38,7 @@ def main():
     ks = []
     srcdir = None
     label = None
+    multi = False
     i = 1
     while i < len(args):
         if args[i] == "--checks":
@@ -49,6 +50,9 @@ def main():
         elif args[i] == "--label":
             label = args[i + 1]
             i += 2
+        elif args[i] == "--multi":  # several changes of one property under one label: <label>-<pid>-<k>
+            multi = True
+            i += 1
         else:
             ks.append(int(args[i]))
             i += 1
@@ -61,11 +65,24 @@ def main():
             a, b = line.strip().split(":")
             comp[a] = b.split()
         checks = [pid] + comp.get(pid, [])
+        extra = {}
+        if os.path.exists("/verif/tools/seed_extra.txt"):
+            for line in open("/verif/tools/seed_extra.txt"):
+                if ":" in line and not line.startswith("#"):
+                    a, b = line.strip().split(":")
+                    extra[a.strip()] = b.split()
+        key = "%s-%s" % (label, pid) if label else None
+        checks_by_k = extra
     for k in ks:
+        if "checks_by_k" in dir():
+            name = ("%s-%s" % (label, pid)) if label else "%s-%d" % (pid, k)
+            for c in checks_by_k.get(name, []):
+                if c not in checks:
+                    checks = checks + [c]
         patch = "%s/change%d.diff" % (src, k)
         demo = "%s/demo%d.py" % (src, k)
         notes = "%s/notes%d.md" % (src, k)
-        filed = "/verif/seeded/%s-%d" % (pid, k) if not label else "/verif/seeded/%s-%s" % (label, pid)
+        filed = "/verif/seeded/%s-%d" % (pid, k) if not label else ("/verif/seeded/%s-%s-%d" % (label, pid, k) if multi else "/verif/seeded/%s-%s" % (label, pid))
         if not os.path.exists(patch):  # scratch worktree already removed: use the filed copy
             patch, demo, notes = filed + "/patch.diff", filed + "/demo.py", filed + "/notes.md"
         M = "/dev/shm/traph-seeded-%s-%d-%d" % (pid, k, os.getpid())
@@ -98,14 +115,18 @@ def main():
             for c in checks:
                 t0 = time.time()
                 env = dict(os.environ, VERIF_REPO=M, VERIF_OUT=OUT)
-                rc_c, out_c = sh("./check %s quick" % c, cwd="/verif", env=env, timeout=3600)
+                c, _, tier = c.partition("@")
+                tier = tier or "quick"
+                rc_c, out_c = sh("./check %s %s" % (c, tier), cwd="/verif", env=env, timeout=14400)
+                if tier != "quick":
+                    c = c + "@" + tier
                 first = ""
                 for line in out_c.splitlines():
                     if "oracle=" in line:
                         first = line.strip()[:400]
                         break
                 results[c] = {"exit": rc_c, "seconds": round(time.time() - t0, 1), "first_violation": first}
-                meta["ran"].append("VERIF_REPO=<patched copy> ./check %s quick -> exit %d" % (c, rc_c))
+                meta["ran"].append("VERIF_REPO=<patched copy> ./check %s -> exit %d" % (c.replace("@", " "), rc_c))
             meta["checks"] = results
             meta["caught_by"] = [c for c, r in results.items() if r["exit"] == 1]
             dst = filed
